@@ -144,6 +144,26 @@ theorem sparse_threshold_adam (c : AdamCfg ℝ) (alpha : ℝ) (t : ℕ) (ht : 1 
 theorem adam_lr_first (c : AdamCfg ℝ) : adamLr c 1 = c.lr0 * Real.sqrt (1 - c.beta2) / (1 - c.beta1) := by
   simp [adamLr, powNat]
 
+/-- Adam's first step from rest is shorter than the learning rate: `|Δw| < lr0`, whatever the size of the gradient
+    (the scale invariance the method is known for; here for the exact expression scikit-learn evaluates). -/
+theorem adam_first_step_bounded (c : AdamCfg ℝ) (g : ℝ) (hlr : 0 < c.lr0)
+    (h1' : c.beta1 < 1) (h2' : c.beta2 < 1) (he : 0 < c.eps) :
+    |(adamStep c adamInit g).2| < c.lr0 := by
+  have hb1 : 0 < 1 - c.beta1 := by linarith
+  have hb2 : 0 < 1 - c.beta2 := by linarith
+  have hs : 0 < Real.sqrt (1 - c.beta2) := Real.sqrt_pos.mpr hb2
+  have hsq : Real.sqrt ((1 - c.beta2) * (g * g)) = Real.sqrt (1 - c.beta2) * |g| := by
+    rw [Real.sqrt_mul hb2.le, Real.sqrt_mul_self_eq_abs]
+  have hu : (adamStep c adamInit g).2
+      = -(c.lr0 * (Real.sqrt (1 - c.beta2) * g) / (Real.sqrt (1 - c.beta2) * |g| + c.eps)) := by
+    simp only [adamStep, adamInit, adamLr, powNat, mul_zero, zero_add, mul_one, RealLike.sqrt_real, hsq]
+    field_simp
+  rw [hu, abs_neg, abs_div, abs_mul, abs_mul, abs_of_pos hlr, abs_of_pos hs]
+  have hd : 0 < Real.sqrt (1 - c.beta2) * |g| + c.eps := by positivity
+  rw [abs_of_pos hd, div_lt_iff₀ hd]
+  have : 0 ≤ Real.sqrt (1 - c.beta2) * |g| := by positivity
+  nlinarith [mul_pos hlr he]
+
 /-- hypotheses of the theorems above hold at scikit-learn's defaults as GemClus uses them (non-vacuity). -/
 example : (0 : ℝ) < 1e-3 ∧ (0 : ℝ) ≤ 0.9 ∧ (0.9 : ℝ) < 1 ∧ (0 : ℝ) ≤ 0.999 ∧ (0.999 : ℝ) < 1 ∧ (0 : ℝ) < 1e-8 := by
   norm_num
